@@ -174,6 +174,9 @@ func main() {
 		if env.Header && f.CtxField() != "" {
 			extra = append(extra, f.CtxField())
 		}
+		if f.AncestorField() != "" && r.Chance(0.4) {
+			extra = append(extra, f.AncestorField())
+		}
 		schema, feats := f.SchemaWith(r, nil, extra, env)
 		var in []byte
 		kind := "records"
